@@ -342,7 +342,11 @@ def file_t2data(ctx, rng, v, i):
     case = {'file': 't2data', 'value': v, 'slot': i % 4}
     dat = t2d.t2data()
     dat.title = 'c02 boundary value'
-    rt = t2g.rocktype(name='rock1', density=2600., porosity=0.1, permeability=[1e-15, 2e-15, 3e-15], conductivity=2.5, specific_heat=900.)
+    # rock names shorter than their field (trailing / inner blanks) are names too: the ELEME record must carry them so
+    # that they parse back as written; every other block has no centre (it is then written through another code path)
+    rname = ['rock1', 'wt   ', 'cap  ', 'a b c', 'ROCK9', 'x    '][(i // 6) % 6]
+    case['rock_name'] = rname
+    rt = t2g.rocktype(name=rname, density=2600., porosity=0.1, permeability=[1e-15, 2e-15, 3e-15], conductivity=2.5, specific_heat=900.)
     slot = (i // 3) % 4
     if slot == 0:
         rt.density = v
@@ -352,7 +356,8 @@ def file_t2data(ctx, rng, v, i):
         rt.conductivity = v
     dat.grid.add_rocktype(rt)
     dat.grid.add_block(t2g.t2block('  a 1', 1.5e3 if slot != 3 else v, rt, centre=[1., 2., -3.]))
-    dat.grid.add_block(t2g.t2block('  a 2', 2.5e3, rt, centre=[1., 2., -13.]))
+    dat.grid.add_block(t2g.t2block('  a 2', 2.5e3, rt, centre=None if (i // 3) % 2 else [1., 2., -13.]))
+    case['second_block_centre'] = 'absent' if (i // 3) % 2 else 'given'
     dat.grid.add_connection(t2g.t2connection([dat.grid.block['  a 1'], dat.grid.block['  a 2']], 3, [5., 5.], 100., -1.0))
     # records with an ABSENT value in a position that is not the last: it is written blank and must come back
     # as absent in the same position (the values after it stay in their own columns)
@@ -362,7 +367,7 @@ def file_t2data(ctx, rng, v, i):
     dom_vals = [2.0e5, 30.5, 0.5]
     dom_vals[(absent_at + 1) % 2] = None
     dat.incon = {'  a 2': [None, list(inc_vals)]}
-    dat.indom = {'rock1': list(dom_vals)}
+    dat.indom = {rname: list(dom_vals)}
     case['absent'] = {'incon': list(inc_vals), 'indom': list(dom_vals)}
     fn = os.path.join(ctx.tmp, 'c02_%d.dat' % i)
     # every third group of cases through the extra-precision auxiliary file (AUTOUGH2): its records are 105-115 columns
@@ -387,7 +392,7 @@ def file_t2data(ctx, rng, v, i):
         return
     with ctx.guard(case, where='file-t2data-read'):
         back = t2d.t2data(fn)
-        r2 = back.grid.rocktype.get('rock1')
+        r2 = back.grid.rocktype.get(rname)
         if r2 is None or back.grid.num_blocks != 2 or back.grid.num_connections != 1:
             ctx.violation('file:t2data-structure', 'rock/blocks/connections lost: %r' % (back.grid,), case)
             return
@@ -411,8 +416,11 @@ def file_t2data(ctx, rng, v, i):
         chk('connection dircos', -1.0, con.dircos, False)
         chk('connection distance 2', 5., con.distance[1], False)
         ctx.count('values_beyond_column_80_read' if xp else 'values_within_column_80_read', 5)
-        if back.grid.blocklist[0].rocktype.name != 'rock1':
-            ctx.violation('file:t2data-neighbour-corrupted', 'block rock type read as %r' % back.grid.blocklist[0].rocktype.name, case)
+        ctx.see('file_rock_name', repr(rname) + ('/no-centre' if (i // 3) % 2 else '/centre'))
+        for bk in back.grid.blocklist:
+            if bk.rocktype.name != rname:
+                ctx.violation('file:t2data-rock-name-in-block-record', 'block %r (centre %s): rock type %r read as %r' % (bk.name, 'absent' if bk.centre is None else 'given', rname, bk.rocktype.name), case)
+                break
 
         def same_positions(wrote, read):
             w = list(wrote)
@@ -427,7 +435,7 @@ def file_t2data(ctx, rng, v, i):
         got = back.incon.get('  a 2')
         if got is None or not same_positions(inc_vals, got[1]):
             ctx.violation('file:t2data-absent-value-moved:incon', 'INCON variables wrote %r read %r' % (inc_vals, got and got[1]), case)
-        gotd = back.indom.get('rock1')
+        gotd = back.indom.get(rname)
         if gotd is None or not same_positions(dom_vals, gotd):
             ctx.violation('file:t2data-absent-value-moved:indom', 'INDOM variables wrote %r read %r' % (dom_vals, gotd), case)
     ctx.see('file_outcome', 't2data-roundtrip')
